@@ -583,6 +583,8 @@ func C09(tier string) int {
 	close(jobs)
 	wg.Wait()
 	rep.Sample(map[string]interface{}{"base": c09Bases()[0].name, "corruptions": []string{atoms[2].name, atoms[8].name}})
+	// ---- (c) foreign-key constraints (AddFkConstraint): their own checker
+	c09FkConstraints(rep)
 	return rep.Finish()
 }
 
